@@ -42,7 +42,7 @@ class C15:
             "non-trivial = program contains a copy assignment, a conversion or a load; evaluations = cases executed summed over configurations")
 
     def program_sets(self, tier, seed, cfg_name, flags, link):
-        st, _ = zoo.quick_stacks(seed)
+        st, _ = zoo.quick_stacks(seed)   # thorough: the whole quick cover in every configuration
         if tier == "quick":
             st = st[:28]   # the fixed catalogue plus the first stacks of the cover; the thorough tier takes all
         bm = ["-mbmi2"] if zoo.cpu_has_bmi2() else []
